@@ -9,6 +9,10 @@ from fractions import Fraction
 
 warnings.simplefilter("ignore")
 try:
+    sys.set_int_max_str_digits(0)
+except AttributeError:
+    pass
+try:
     import resource
     _lim = int(os.environ.get("VERIF_WORKER_MEM", str(3 << 30)))
     resource.setrlimit(resource.RLIMIT_AS, (_lim, _lim))   # a runaway case raises MemoryError instead of being OOM-killed
@@ -50,7 +54,8 @@ def reset(cfg):
     LinComb.ONE = LinComb.ONE_SAFE
     R.bitlength = cfg.get("bl", 16)
     Fm.resolution = cfg.get("res", 8)
-    set_modulus(cfg.get("p", DEFAULT_P))
+    if cfg.get("p", DEFAULT_P) != B.get_modulus():
+        set_modulus(cfg.get("p", DEFAULT_P))
 
 
 def dirty_state():
@@ -98,6 +103,7 @@ class Interp:
         self.instrs = instrs
         self.regs = []
         self.err = None
+        self.nc = []        # number of constraints / private wires after each instruction
 
     def match_leave(self, start):
         depth = 0
@@ -124,13 +130,16 @@ class Interp:
                 def body(k=k, end=end):
                     inner["entered"] = True
                     self.regs.append(None)
+                    self.nc.append((len(B.constraints), len(B.privvals)))
                     self.run_range(k + 1, end)
                 guarded(cond)(body)()
                 self.regs.append(None)      # register of gleave
+                self.nc.append((len(B.constraints), len(B.privvals)))
                 k = end + 1
                 continue
             self.pos = k
             self.regs.append(self.step(ins))
+            self.nc.append((len(B.constraints), len(B.privvals)))
             k += 1
 
     def step(self, ins):
@@ -241,7 +250,8 @@ def handle_prog(fields):
             if (x.value - ev(x.lc, p)) % p != 0:
                 incoh.append(i)
                 break
-    extra = f"UNSAT={','.join(map(str, unsat))}|INCOH={','.join(map(str, incoh))}|DIRTY={int(any(dirty))}"
+    nc = ",".join(f"{a}/{b}" for a, b in it.nc[:len(it.regs)])
+    extra = f"UNSAT={','.join(map(str, unsat))}|INCOH={','.join(map(str, incoh))}|DIRTY={int(any(dirty))}|NC={nc}"
     return f"{cid}|{status}|{regs}|{state_str(p)}|{extra}"
 
 
